@@ -840,3 +840,14 @@ MUTANTS.append({"id": "C05-virtual-inference-short-circuited", "prop": "C05", "b
 M("C05-benign-virtual-inference-renamed", "C05", "src/interrogate/interrogateBuilder.cxx",
   "  bool has_virt_methods = cpptype->is_polymorphic();\n", "  const bool has_virt_methods = cpptype->is_polymorphic();\n",
   benign=True)
+
+M("C16-benign-break-edge-iterators", "C16", "src/interrogate/interrogate_module.cxx",
+  "        dependencies[cycle[0]].erase(cycle[1]);", "        dependencies[*cycle.begin()].erase(*(cycle.begin() + 1));",
+  benign=True)
+M("C16-break-edge-iterators-skip-one", "C16", "src/interrogate/interrogate_module.cxx",
+  "        dependencies[cycle[0]].erase(cycle[1]);", "        dependencies[*cycle.begin()].erase(*(cycle.begin() + 2));",
+  expect="R16.2|erase#1|edge-of-the-reported-cycle")
+
+M("C02-benign-nonconst-ref-eq-false", "C02", "src/interrogate/typeManager.cxx",
+  "  case CPPDeclaration::ST_reference:\n    return !is_const(type->as_reference_type()->_pointing_at);", "  case CPPDeclaration::ST_reference:\n    return is_const(type->as_reference_type()->_pointing_at) == false;",
+  benign=True)
